@@ -35,8 +35,8 @@ func (s *Store) clone() *Store {
 	return &Store{Ents: append([]Entry{}, s.Ents...), Writes: s.Writes, Deletes: append([][]byte{}, s.Deletes...)}
 }
 
-func (s *Store) GetStoreType() storetypes.StoreType  { return storetypes.StoreTypeDB }
-func (s *Store) CacheWrap() storetypes.CacheWrap     { panic("zzvrf.Store.CacheWrap") }
+func (s *Store) GetStoreType() storetypes.StoreType { return storetypes.StoreTypeDB }
+func (s *Store) CacheWrap() storetypes.CacheWrap    { panic("zzvrf.Store.CacheWrap") }
 func (s *Store) CacheWrapWithTrace(w io.Writer, tc storetypes.TraceContext) storetypes.CacheWrap {
 	panic("zzvrf.Store.CacheWrapWithTrace")
 }
@@ -123,23 +123,23 @@ func (it *Iter) Close() error             { return nil }
 // ---------------------------------------------------------------- world
 
 type World struct {
-	Stores map[string]*Store
-	Bal    map[string]map[string]sdkmath.Int // address (string of bytes) -> denom -> amount
-	Supply map[string]sdkmath.Int
-	Height int64
-	Unix   int64
-	Sends  int // number of successful bank mutations (for "nothing changed" assertions)
+	Stores  map[string]*Store
+	Bal     map[string]map[string]sdkmath.Int // address (string of bytes) -> denom -> amount
+	Supply  map[string]sdkmath.Int
+	Height  int64
+	Unix    int64
+	Sends   int // number of successful bank mutations (for "nothing changed" assertions)
 	MintLog []MintRec
 	Meta    []string // base denoms with bank metadata (IterateAllDenomMetaData)
-	parent *World
-	em     *sdk.EventManager
+	parent  *World
+	em      *sdk.EventManager
 }
 
 type MintRec struct {
-	Module string
-	Denom  string
-	Amount sdkmath.Int
-	Burn   bool
+	Module  string
+	Denom   string
+	Amount  sdkmath.Int
+	Burn    bool
 	Callers string // call chain at the bank call (symbolic engine only; empty natively)
 }
 
@@ -287,8 +287,10 @@ func (Codec) UnmarshalLengthPrefixed(bz []byte, ptr proto.Message) error {
 }
 func (Codec) MustUnmarshalLengthPrefixed(bz []byte, ptr proto.Message) { BlobGet(bz, ptr) }
 func (Codec) MarshalInterface(i proto.Message) ([]byte, error)         { panic("zzvrf.Codec.MarshalInterface") }
-func (Codec) UnmarshalInterface(bz []byte, ptr interface{}) error      { panic("zzvrf.Codec.UnmarshalInterface") }
-func (Codec) UnpackAny(any *types.Any, iface interface{}) error        { panic("zzvrf.Codec.UnpackAny") }
+func (Codec) UnmarshalInterface(bz []byte, ptr interface{}) error {
+	panic("zzvrf.Codec.UnmarshalInterface")
+}
+func (Codec) UnpackAny(any *types.Any, iface interface{}) error { panic("zzvrf.Codec.UnpackAny") }
 
 // ---------------------------------------------------------------- bank
 
@@ -436,11 +438,11 @@ func (Accounts) GetModuleAccount(ctx context.Context, moduleName string) sdk.Mod
 	return authtypes.NewEmptyModuleAccount(moduleName)
 }
 func (Accounts) GetAccount(ctx context.Context, addr sdk.AccAddress) sdk.AccountI { return nil }
-func (Accounts) HasAccount(ctx context.Context, addr sdk.AccAddress) bool       { return true }
-func (Accounts) NewAccount(ctx context.Context, acc sdk.AccountI) sdk.AccountI  { return acc }
-func (Accounts) SetAccount(ctx context.Context, acc sdk.AccountI)               {}
+func (Accounts) HasAccount(ctx context.Context, addr sdk.AccAddress) bool         { return true }
+func (Accounts) NewAccount(ctx context.Context, acc sdk.AccountI) sdk.AccountI    { return acc }
+func (Accounts) SetAccount(ctx context.Context, acc sdk.AccountI)                 {}
 func (Accounts) NewAccountWithAddress(ctx context.Context, addr sdk.AccAddress) sdk.AccountI {
 	return nil
 }
 func (Accounts) SetModuleAccount(ctx context.Context, macc sdk.ModuleAccountI) {}
-func (Accounts) NextAccountNumber(ctx context.Context) uint64               { return 1 }
+func (Accounts) NextAccountNumber(ctx context.Context) uint64                  { return 1 }
